@@ -1326,7 +1326,19 @@ func preprocessStylesheet(deviceMediaType, baseUrl string, stylesheetRules []pa.
 				}
 				url = utils.UrlJoin(baseUrl, url, false, "@import")
 				if url != "" {
-					_, err := newCSS(utils.InputUrl(url), "", urlFetcher, false,
+					// Detect circular imports: the imported stylesheet (and the ones it imports)
+					// is processed with a fetcher refusing to fetch it a second time.
+					importedUrl, alreadyFetched := url, false
+					guardedFetcher := func(target string) (utils.RemoteRessource, error) {
+						if target == importedUrl {
+							if alreadyFetched {
+								return utils.RemoteRessource{}, fmt.Errorf("circular @import of %s", target)
+							}
+							alreadyFetched = true
+						}
+						return urlFetcher(target)
+					}
+					_, err := newCSS(utils.InputUrl(url), "", guardedFetcher, false,
 						deviceMediaType, fontConfig, matcher, pageRules, counterStyle)
 					if err != nil {
 						logger.WarningLogger.Printf("Failed to load stylesheet at %s : %s \n", url, err)
